@@ -31,10 +31,10 @@ CHECKS.update({
 
 CHECKS.update({
  "C14": ("grammar-based property testing with a round-trip oracle (parse -> print -> parse -> print, in process) + process-level re-import of declare -f/type/export -f text into brush and bash",
-         "30k (quick) / 600k (thorough) generated function bodies covering every compound command, redirect kinds and counts, here-strings, process substitutions, nested functions etc.: printed text must re-parse to the same AST (locations erased) and print to the same text; 400/8000 generated functions are printed by the running shell and re-read by a fresh brush and by bash, behaviour compared. Exploration.",
+         "30k (quick) / 600k (thorough) generated function bodies covering every compound command, redirect kinds and counts (every operator also with an explicit descriptor number), here-strings, process substitutions, nested functions etc.: printed text must re-parse to the same AST (locations erased) and print to the same text; 400/8000 generated functions are printed by the running shell and re-read by a fresh brush and by bash, behaviour compared. Exploration.",
          "bodies brush's own parser rejects are outside the property; `{Fd:n}` vs `{Duplicate:\"n\"}` redirect targets and the position of redirects on command-word-less simple commands are treated as equal ASTs", "DESIGN.md §3 C14 (design) and §8 (as built)"),
  "C20": ("bounded-exhaustive enumeration of operation sequences + random sequences against an executable model (in process)",
-         "All sequences of up to 5 (quick) / 6 (thorough) operations over add/save/new-session/delete/clear/toggle-timestamps plus random longer ones, driven through the Shell/History API on a real file; file bytes and reloaded history compared with a model written from the property after every step. Exhaustive within the length bound.",
+         "All sequences of up to 5 (quick) / 6 (thorough) operations over add/save/new-session/delete/clear/toggle-timestamps plus random longer ones (5k/100k) and phased sessions (2-4 phases of toggle / record / save / reload, 5k/100k), driven through the Shell/History API on a real file; file bytes and reloaded history compared with a model written from the property after every step. Exhaustive within the length bound.",
          "driven through the library API (Shell::add_to_history/save_history, fresh interactive Shell on the same HISTFILE), not through a terminal; timestamps compared as present/absent", "DESIGN.md §3 C20 (design) and §8 (as built)"),
 })
 
